@@ -43,7 +43,8 @@ def opCorr (j : Json) : M Json := do
   if c = 0 then .error "chunksize must be ≥ 1"
   let order ← match getOpt j "order" with
     | some o => asNatList o
-    | none => pure (List.range (nCols act))
+    -- default: the chunks in index order — a permutation of the chunk indices, as the theorems assume
+    | none => pure (List.range (prangeChunks (nCols act) c).length)
   match correlation (0, 0) execCell allowNan sem act c order with
   | .error e => pure (Json.mkObj [("err", Json.str (corrErrName e))])
   | .ok rows =>
